@@ -105,6 +105,17 @@ def _host_functions():
 # running the implementation
 # ------------------------------------------------------------------------------------------------------
 
+def confirm_timeout_late(fn):
+    """decorator shim: `confirm_timeout` is defined further down (next to the deadline it belongs to)"""
+    import functools
+
+    @functools.wraps(fn)
+    def wrapper(*a, **kw):
+        return confirm_timeout(fn)(*a, **kw)
+    return wrapper
+
+
+@confirm_timeout_late
 def run_impl(src: str, runner: str, bindings: Dict[str, Any], package: Optional[str] = None,
              functions: Optional[list] = None) -> str:
     """`ok` | `err` | `parse-error` | `EXC <Class>` (+ ` @stage`) | `… RENDER <Class>` | `parse-error BADPOS l:c`"""
@@ -160,20 +171,53 @@ class _deadline:
         self.s = seconds
 
     def __enter__(self):
+        # the budget is CPU time of this process (ITIMER_VIRTUAL), so that a busy machine cannot turn a 0.4 s evaluation
+        # into a "timeout"; a wall-clock alarm at ten times the budget remains as a backstop for an evaluation that blocks
         import signal, threading
         self.on = threading.current_thread() is threading.main_thread()
         if self.on:
             def fire(signum, frame):
                 raise EvaluationTimeout()
             self.old = signal.signal(signal.SIGALRM, fire)
-            signal.alarm(self.s)
+            self.oldv = signal.signal(signal.SIGVTALRM, fire)
+            signal.setitimer(signal.ITIMER_VIRTUAL, self.s)
+            signal.alarm(self.s * 10)
 
     def __exit__(self, *a):
         import signal
         if self.on:
+            signal.setitimer(signal.ITIMER_VIRTUAL, 0)
             signal.alarm(0)
+            signal.signal(signal.SIGVTALRM, self.oldv)
             signal.signal(signal.SIGALRM, self.old)
         return False
+
+
+def confirm_timeout(fn):
+    """An EvaluationTimeout is a verdict only when it is confirmed: the same case is run once more with the cyclic garbage
+    collector switched off (a harness process holding 10^5 cases makes allocation-heavy evaluations crawl through full
+    collections — measured: 0.4 s alone, > 30 s inside a thorough run) and four times the budget.  A genuinely exponential or
+    non-terminating evaluation (the D43 class) times out again and is reported; anything else returns its real outcome."""
+    import functools
+
+    @functools.wraps(fn)
+    def wrapper(*a, **kw):
+        global EVAL_TIMEOUT_S
+        out = fn(*a, **kw)
+        if isinstance(out, str) and out.startswith("EXC EvaluationTimeout"):
+            import gc
+            was, old = gc.isenabled(), EVAL_TIMEOUT_S
+            gc.collect()
+            gc.disable()
+            EVAL_TIMEOUT_S = old * 4
+            try:
+                out = fn(*a, **kw)
+            finally:
+                EVAL_TIMEOUT_S = old
+                if was:
+                    gc.enable()
+        return out
+    return wrapper
 
 
 def outcome(R: Rt, thunk) -> str:
@@ -664,6 +708,7 @@ def seq_case(rng: random.Random, R: Rt, names: List[str]) -> Dict[str, Any]:
                 texts=texts, steps=steps, binds=[bind0, bind1])
 
 
+@confirm_timeout_late
 def run_seq(c: Dict[str, Any]) -> str:
     """`seq <values> <eval errors> <parse errors>` | `EXC <Class> @step <k> <what>` | `… RENDER …` | `… BADPOS …`"""
     R = rt()
